@@ -19,6 +19,14 @@ class Harness(Exception):
     pass
 
 
+def scaled(n):
+    """VERIF_SCALE multiplies the number of SAMPLED runs (enumerated scenarios are always complete)."""
+    try:
+        return max(1, int(n * float(os.environ.get("VERIF_SCALE", "1")))) if n else n
+    except ValueError:
+        return n
+
+
 # ----------------------------------------------------------------------------- property definitions
 class Prop:
     owns_determinism = False
@@ -57,7 +65,7 @@ class C15(Prop):
         c = self.counts[tier][scen]
         if c == "all":
             return {"pairs": scen_c15.n_pairs, "sweep": scen_c15.n_sweep, "dialects": scen_c15.n_dialects, "triples": scen_c15.n_triples}[scen]()
-        return c
+        return scaled(c)
 
     def spec(self, scen, index, seed):
         from . import scen_c15
